@@ -74,7 +74,9 @@ def run(c):
             os.remove(lnk)
     c.samples = samples
     need = ["big", "deposits", "withdraws", "creates", "minted", "lastShare", "keeperDeposits", "keeperWithdraws", "priced", "ranged",
-            "confDeposit", "confWithdraw", "withFee", "swaps"]
+            "confDeposit", "confWithdraw", "withFee", "swaps",
+            "foreignCoinAttempts", "foreignAppCoinAttempts", "foreignDepositAttempts", "poolIdNePairId", "idsPairwiseDistinct",
+            "rangedDepositPoolIdNePairId"]
     if any(stats.get(k, 0) == 0 for k in need):
         raise vlib.NoVerdict("vacuous run: %s" % stats)
     return c.finish("model_checking", dict(
